@@ -416,6 +416,26 @@ def main(tier, replay=None):
                 res.violation("analysis panicked / project could not be loaded: %s" % json.dumps(o)[:300],
                               replay_obj(ci, "input", {"threads": t, "k": k}))
             continue
+        # -- oracle 1b: the loading phase: diagnostic MULTISET of the loaded project = one-file-at-a-time reference
+        seq_bad = [(kt, o) for kt, o in sorted(runs.items(), key=lambda x: (x[0][1], x[0][0]))
+                   if "seq_diags" in o and o["diags"] != o["seq_diags"]]
+        if seq_bad:
+            (k, t), o = seq_bad[0]
+            nviol += 1
+            stats["loading_mismatch"] = stats.get("loading_mismatch", 0) + 1
+            if nviol <= 10:
+                extra = [x for x in o["diags"] if o["diags"].count(x) > o["seq_diags"].count(x)]
+                lost = [x for x in o["seq_diags"] if o["seq_diags"].count(x) > o["diags"].count(x)]
+                res.violation("parallel loading is schedule dependent: Project::from_config + analyse() under %d rayon worker(s), "
+                              "listing order %d, reports %d diagnostics, parsing every file alone gives %d (%d runs of this "
+                              "project differ from the reference)" % (t, k, len(o["diags"]), len(o["seq_diags"]), len(seq_bad)),
+                              replay_obj(ci, "input", {"threads": t, "k": k, "surplus": sorted(set(extra))[:5],
+                                                       "missing": sorted(set(lost))[:5],
+                                                       "counts_per_run": {"%d threads, order %d" % (kt[1], kt[0]): len(oo["diags"])
+                                                                          for kt, oo in seq_bad[:12]}}))
+            continue
+        if any("seq_diags" in o for o in runs.values()):
+            stats["loading_projects"] = stats.get("loading_projects", 0) + 1
         # -- oracle 2: schedule independence
         groups = {}
         for kt, o in runs.items():
@@ -477,7 +497,10 @@ def main(tier, replay=None):
         "as `use l.p;`, `use l.p.all;`, `use l.p.k(0);` (not a selected name), selected names in constant declarations, "
         "`alias g is true [nonexistent_t, l.p.k return boolean];` (type mark after an unresolved one), entity "
         "instantiations with and without architecture; plus projects of 17-40 files that all use the same not yet "
-        "interned extended and mixed-case identifiers (symbol table race while parsing in parallel). Every project is "
+        "interned extended and mixed-case identifiers (symbol table race while parsing in parallel); plus loading-phase "
+        "projects of 48-80 independent one-package files (3-5x the largest pool), 20-35 %% of them with a syntax error "
+        "(missing `;`, missing `is`, unbalanced parenthesis, dangling operator, misspelt `end`), whose diagnostic "
+        "multiset must equal the one-file-at-a-time reference (VHDLParser on each file alone). Every project is "
         "loaded with Project::from_config (parallel parsing) and analysed under rayon pools of %s workers x %d library/"
         "file listing orders (different directory per order), each in a watchdog-supervised child process (no output "
         "for %d s and an idle CPU clock = deadlock). Direct stress of SymbolTable (barrier-synchronised threads "
